@@ -268,6 +268,20 @@ func (j *judge) builder(u *bldrun.LUnit, b ast.Builder, thorough bool) {
 		j.mu.Lock()
 		j.optionsSeen++
 		j.mu.Unlock()
+		// An option derived from a member (plain builders, struct_fields_as_options) is named after
+		// that member: its single assignment must target it. This is the one expectation that does
+		// not come from the builder IR, so that a wrong target in the IR itself is seen.
+		if (u.C.Variant == "" || u.C.Variant == "fieldopts") && len(opt.Assignments) == 1 && len(opt.Args) == 1 {
+			pth := opt.Assignments[0].Path
+			if last := pth[len(pth)-1]; last.Index == nil && last.Identifier != opt.Name {
+				tc := bldrun.TypeClass(u, args[0].Term, 0)
+				if u.C.Variant != "" {
+					tc += " [" + u.C.Variant + "]"
+				}
+				j.fail(u, b, "option does not target the member it is named after", "", tc,
+					fmt.Sprintf("option %s assigns to %s", opt.Name, pth.String()), []call{{Text: opt.Name + "(…)"}})
+			}
+		}
 		// value alphabets
 		alpha := make([][]any, len(args))
 		class := make([][]string, len(args))
